@@ -195,9 +195,13 @@ impl Engine for LinkCcEngine {
             _ => rng.random_range(900..1100),
         };
         let mut links = Vec::new();
+        // now and then every link is gone for one pass (an IP-list reload that swaps the whole set, all uplinks torn
+        // down together): the controller is ticked with an empty set, and ids come back later
+        let nobody = rng.random_range(0..40) == 0;
         for slot in 0..4 {
             let present_now = self.conns[slot].is_some();
-            let present = if present_now { rng.random_range(0..60) != 0 } else { rng.random_range(0..6) == 0 || slot == 0 };
+            let present = !nobody
+                && if present_now { rng.random_range(0..60) != 0 } else { rng.random_range(0..6) == 0 || slot == 0 };
             if !present_now && present {
                 // a new link profile
                 self.rate[slot] = match rng.random_range(0..5) {
